@@ -6,10 +6,10 @@
    table and the documented order of the tests, written by hand.  `decide gen_tables r` runs the
    executable model of tapkee::embed (Validate_Model.v) on request r. *)
 
-From Coq Require Import ZArith QArith List Bool.
+From Coq Require Import ZArith QArith List Bool Permutation.
 Import ListNotations.
 From TK Require Import Validate_Model Validate_Spec Validate_Proof Validate_Proof_Steps
-  Validate_Proof_Main Validate_Proof_Gen Validate_Float Validate.
+  Validate_Proof_Main Validate_Proof_Gen Validate_Proof_Order Validate_Float Validate.
 
 (* ---- predicate objects of predicates.hpp, over all of Q *)
 Theorem in_range_semantics : forall n ty l u x,
@@ -102,6 +102,31 @@ Example reject_outside_nonvacuous :
   In (CRange [] cell_num_neighbors) (documented_order (all_callbacks [(kw_method, VMethod Isomap)] 5)) /\
   violated (all_callbacks [(kw_method, VMethod Isomap)] 5) (CRange [] cell_num_neighbors) = true.
 Proof. split; [vm_compute; tauto | vm_compute; reflexivity]. Qed.
+
+(* ---- every order and multiplicity of the keywords in the comma expression *)
+Theorem duplicate_throws : forall r,
+  nodupb (map fst (rq_kws r)) = false ->
+  decide gen_tables r = RThrow Multiple /\ evaluates gen_tables r = false.
+Proof. exact gen_duplicate_throws. Qed.
+Print Assumptions duplicate_throws.
+
+Example duplicate_throws_nonvacuous :
+  nodupb (map fst (rq_kws (all_callbacks [(kw_num_neighbors, VIndex 4); (kw_method, VMethod Isomap);
+                                          (kw_num_neighbors, VIndex 4)] 8))) = false.
+Proof. reflexivity. Qed.
+
+Theorem order_irrelevant : forall r1 r2,
+  Permutation (rq_kws r1) (rq_kws r2) ->
+  rq_n r1 = rq_n r2 -> rq_dim r1 = rq_dim r2 -> rq_kernel r1 = rq_kernel r2 ->
+  rq_distance r1 = rq_distance r2 -> rq_features r1 = rq_features r2 ->
+  outcome_of (decide gen_tables r1) = outcome_of (decide gen_tables r2).
+Proof. exact gen_order_irrelevant. Qed.
+Print Assumptions order_irrelevant.
+
+Example order_irrelevant_nonvacuous :
+  Permutation [(kw_num_neighbors, VIndex 4); (kw_method, VMethod Isomap)]
+              [(kw_method, VMethod Isomap); (kw_num_neighbors, VIndex 4)].
+Proof. apply perm_swap. Qed.
 
 (* ---- the cells of the statement, read as plain inequalities over Z / Q *)
 Theorem target_dimension_in_1_N : forall r z,
